@@ -10,6 +10,7 @@ import (
 	"fmt"
 	"regexp"
 	"runtime"
+	"runtime/debug"
 	"strings"
 	"sync"
 	"sync/atomic"
@@ -100,17 +101,20 @@ func storeOpts(c *cfgClass, lg *capLogger) *store.Options {
 
 // ---- workload: a handful of txs with tx metadata, several entries, an empty value, KV metadata
 type wEntry struct {
-	Key      string
-	Deleted  bool
-	NonIdx   bool
-	Expires  int64
-	Val      []byte
+	Key     string
+	Deleted bool
+	NonIdx  bool
+	Expires int64
+	Val     []byte
 }
 type wTx struct {
 	Extra   []byte
 	Trunc   uint64
 	Entries []wEntry
 }
+
+// quickWorkload: the quick tier commits 4 of the 6 txs (set from -tier before any store is built)
+var quickWorkload bool
 
 func workload(c *cfgClass, seed int64) []wTx {
 	v := func(tag string, n int) []byte { return vh.Bytes(seed, "c09-"+tag, 0, n) }
@@ -124,6 +128,10 @@ func workload(c *cfgClass, seed int64) []wTx {
 		{Extra: v("4x", 3), Trunc: 1, Entries: []wEntry{{Key: "k4a", Deleted: true, NonIdx: true, Val: v("4a", 1)}, {Key: "k4b-longer-key", Val: v("4b", 2)}}},
 		{Extra: []byte{0x7f}, Entries: []wEntry{{Key: "k5a", Val: v("5a", 64)}}},
 		{Entries: []wEntry{{Key: "k6a", Expires: far, Val: v("6a", 32)}, {Key: "k1c", Val: v("6c", 5)}, {Key: "k6d", Val: v("6d", 3)}}},
+	}
+	if quickWorkload {
+		// tx 1 (3 entries, empty value), tx 2 (extra metadata, kv metadata), tx 3 (one entry, rewrites k1a), tx 4 (both tx attributes)
+		w = w[:4]
 	}
 	if c.Version == 0 { // version 0 records cannot carry metadata
 		for i := range w {
@@ -226,9 +234,14 @@ var reFrame = regexp.MustCompile(`^(\S.*)\(.*\)$`)
 // blockedSite describes where goroutine gid is blocked: wait state + the first frames.
 func blockedSite(gid string) string {
 	bp := stackBufs.Get().(*[]byte)
-	defer stackBufs.Put(bp)
+	defer func() { stackBufs.Put(bp) }()
 	buf := *bp
 	n := runtime.Stack(buf, true)
+	for n == len(buf) && len(buf) < 1<<27 { // truncated dump (abandoned stores leave goroutines behind): grow
+		nb := make([]byte, 2*len(buf))
+		bp, buf = &nb, nb
+		n = runtime.Stack(buf, true)
+	}
 	for _, blk := range strings.Split(string(buf[:n]), "\n\n") {
 		if !strings.HasPrefix(blk, "goroutine "+gid+" [") {
 			continue
@@ -286,14 +299,28 @@ type callResult struct {
 
 // call runs f under vh.Guard and fills the item.
 func call(path string, tx int, sub string, f func() callResult) item {
+	return callOpt(path, tx, sub, false, f)
+}
+
+// callOpt: mayBlock = the call legitimately waits for a background goroutine (only the long deadline applies)
+func callOpt(path string, tx int, sub string, mayBlock bool, f func() callResult) item {
 	it := item{Path: path, Tx: tx, Sub: sub}
 	var r callResult
 	var gid string
 	returned := false
 	done := make(chan struct{})
+	ownPanic := ""
 	panicked, hung, msg := vh.Guard(d1, func() {
 		gid = curGID()
-		defer close(done)
+		defer func() {
+			// keep the message for the case that vh.Guard has already given up waiting; then let vh.Guard see the panic
+			if x := recover(); x != nil {
+				ownPanic = fmt.Sprintf("%v\n%s", x, debug.Stack())
+				close(done)
+				panic(x)
+			}
+			close(done)
+		}()
 		r = f()
 		returned = true
 	})
@@ -308,7 +335,7 @@ func call(path string, tx int, sub string, f func() callResult) item {
 				!strings.HasPrefix(st, "IO wait") && !strings.HasPrefix(st, "sleep") && !strings.HasPrefix(st, "GC ") && st != "goroutine gone"
 		}
 		confirmedMu.Lock()
-		known := confirmedSites[path+"|"+site] >= 2 && isBlocked(site)
+		known := !mayBlock && confirmedSites[path+"|"+site] >= 2 && isBlocked(site)
 		confirmedMu.Unlock()
 		if !known {
 			start := time.Now()
@@ -326,7 +353,7 @@ func call(path string, tx int, sub string, f func() callResult) item {
 				if now != site {
 					site, sameSince = now, time.Now()
 				}
-				if isBlocked(site) && time.Since(sameSince) >= d2 {
+				if !mayBlock && isBlocked(site) && time.Since(sameSince) >= d2 {
 					confirmedMu.Lock()
 					confirmedSites[path+"|"+site]++
 					confirmedMu.Unlock()
@@ -343,7 +370,7 @@ func call(path string, tx int, sub string, f func() callResult) item {
 		}
 		// finished late: a panic in f was recovered by vh.Guard's goroutine, whose result we can no longer read
 		if !returned {
-			it.Panic, it.Site = "panic after the first deadline (message lost)", "late-panic"
+			it.Panic, it.Site = ownPanic, panicSite(ownPanic)
 			return it
 		}
 	}
@@ -401,15 +428,15 @@ func txProj(tx *store.Tx) (string, string) {
 
 // ---- the synchronous read paths on an opened store
 const (
-	pOpen    = "Open"
-	pReadTx  = "ReadTx"
-	pHeader  = "ReadTxHeader"
-	pEntry   = "ReadTxEntry"
-	pValue   = "ReadValue"
-	pExport  = "ExportTx"
-	pReader  = "TxReader"
-	pProof   = "Proof"
-	pIndex   = "IndexRebuild"
+	pOpen   = "Open"
+	pReadTx = "ReadTx"
+	pHeader = "ReadTxHeader"
+	pEntry  = "ReadTxEntry"
+	pValue  = "ReadValue"
+	pExport = "ExportTx"
+	pReader = "TxReader"
+	pProof  = "Proof"
+	pIndex  = "IndexRebuild"
 )
 
 var allPaths = []string{pOpen, pReadTx, pHeader, pEntry, pValue, pExport, pReader, pProof, pIndex}
@@ -570,10 +597,12 @@ func runPaths(o *opened, lay *layout) []item {
 	}
 	// proofs between tx pairs
 	pairs := [][2]int{{1, n}, {1, 2}, {n - 1, n}, {2, n - 1}, {3, n}}
+	seenPair := map[[2]int]bool{}
 	for _, pr := range pairs {
-		if stop || pr[0] < 1 || pr[1] > n || pr[0] >= pr[1] {
+		if stop || pr[0] < 1 || pr[1] > n || pr[0] >= pr[1] || seenPair[pr] {
 			continue
 		}
+		seenPair[pr] = true
 		i, j := pr[0], pr[1]
 		add(call(pProof, 0, fmt.Sprintf("dual:%d:%d", i, j), func() callResult {
 			hi, err := st.ReadTxHeader(uint64(i), false, false)
@@ -684,8 +713,8 @@ func runIndexRebuild(dir string, c *cfgClass, lay *layout) []item {
 	defer o.close()
 	n := len(lay.txs)
 	st := o.st
-	wait := call(pIndex, 0, "wait", func() callResult {
-		ctx, cancel := context.WithTimeout(context.Background(), 20*time.Second)
+	wait := callOpt(pIndex, 0, "wait", true, func() callResult {
+		ctx, cancel := context.WithTimeout(context.Background(), 60*time.Second)
 		defer cancel()
 		go func() {
 			select {
